@@ -74,7 +74,7 @@ func (h *vrfC05) instruction(allowWorkers bool) {
 		if j := h.ps.find(c); j >= 0 && kind == 1 && h.ps.pins[j].MaxDepth != 0 {
 			vrf_assume(false)
 		}
-		everywhere := vrf_choice("everywhere", 2) == 1
+		everywhere := vrf_nondet_bool("everywhere")
 		p := h.mkPin(i, true, kind == 1, everywhere)
 		h.ps.set(p)
 		err := h.spt.Track(ctx, p)
@@ -122,7 +122,7 @@ func (h *vrfC05) onCall(d *vrfDaemon, kind string, ctx context.Context, pin *api
 	if ctx.Err() != nil {
 		return ctx.Err() // request aborted: nothing applied
 	}
-	if vrf_choice("ipfs_call_fails", 2) == 1 {
+	if vrf_nondet_bool("ipfs_call_fails") {
 		return vrfErrDaemon
 	}
 	if kind == "pin" {
